@@ -106,4 +106,38 @@ def unmodelledSpawnGroups : List (String × List SpawnKey) := [
 
 def unmodelledSpawns : List SpawnKey := unmodelledSpawnGroups.flatMap (·.2)
 
+/-! ### loops that end only through their own condition (`Fair.data` rests on these)
+
+`Gen/PipeSpawns.lean: loops` lists every `for` / `range` statement of the packages the pipelines live in
+(dosnode, share/dkg/pedersen, utils, p2p, onchain) with how it can end.  The translator emits nothing for a
+loop without channel operations (it is an internal choice); that such a loop ends is the `data` clause of
+the fairness hypothesis.  Below: every loop that is neither a `range` nor contains a channel operation,
+with the reason it ends.  Key = (package directory, function, ordinal of the loop in it, bound, header, class). -/
+
+abbrev LoopKey := String × String × Nat × String × String × String
+
+/-- (why it ends, the loop) -/
+def opaqueLoopGroups : List (String × List LoopKey) := [
+  ("counting loop over an index with a fixed bound, the body does not assign the index", [
+    ("dosnode", "choseSubmitter", 0, "count", "for i < outCount", "opaque"),
+    ("dosnode", "getBootIps", 0, "count", "for i < len(strlist)-1", "opaque"),
+    ("dosnode", "DosNode.dkgTest", 1, "count", "for i < end", "opaque"),
+    ("share/dkg/pedersen", "decodePubKey", 0, "count", "for i < 4", "opaque"),
+    ("onchain", "DialToEth", 0, "count", "for i < len(urlPool)", "opaque"),
+    ("onchain", "ethAdaptor.SetGasLimit", 0, "count", "for i < len(e.proxies) && i < len(e.crs)", "opaque"),
+    ("onchain", "ethAdaptor.SetGasPrice", 0, "count", "for i < len(e.proxies) && i < len(e.crs)", "opaque")]),
+  ("framing loops of the p2p client: end when the announced number of bytes is there or the connection fails (C15)", [
+    ("p2p", "writeTo", 0, "cond", "for totalBytesWrtie < len(bytes) && err == nil", "opaque"),
+    ("p2p", "readFrom", 0, "cond", "for totalBytesRead < headerSize && err == nil", "opaque"),
+    ("p2p", "readFrom", 1, "cond", "for totalContentBytesRead < int(size) && err == nil", "opaque")]),
+  ("node level, not a pipeline goroutine: reconnect to the chain node at most 10 times, join the p2p network at most 10 times, read a file to its end", [
+    ("dosnode", "DosNode.onchainLoop", 6, "forever", "for", "opaque"),
+    ("dosnode", "DosNode.Start", 1, "forever", "for", "opaque"),
+    ("dosnode", "readLines", 0, "forever", "for", "opaque")]),
+  ("chain adaptor (C19), not a pipeline goroutine: polls for the receipt for at most 128 block times; waits until no connection attempt is in flight", [
+    ("onchain", "CheckTransaction", 0, "cond", "for err == ethereum.NotFound", "opaque"),
+    ("onchain", "ethAdaptor.DisconnectAll", 0, "forever", "for", "opaque")])]
+
+def opaqueLoops : List LoopKey := opaqueLoopGroups.flatMap (·.2)
+
 end Dos.Pipe
